@@ -54,6 +54,7 @@ def run(ctx, rep, tier):
     rep.rule("N4", "toString(CellOrientation) yields the enumerator name for the 8 orientations", 8)
     rep.rule("N5", "writer emits the keys the reader needs; row orientation written by name", 6)
     rep.rule("XE", "every file of the benchmark is written on every path of exportIspd", 4)
+    rep.rule("XA", "the .aux file names the other files relative to itself (the reader resolves them against its directory)", 4)
     rep.rule("XF", "writer emits raw geometry that the reader inverts exactly; full-range loops", 6)
     table = extract_bindings(ctx, rep)
     check_python(ctx, rep, table)
@@ -449,13 +450,27 @@ def check_export_complete(ctx, rep):
     prog = ctx.prog
     f = prog.func1(CQ + "Circuit::exportIspd")
     g = cfg_of(f)
-    p0 = f.params[0] if f.params else None
     calls = []
+    names = {}
     for x in walk(f.body):
         if x.get("kind") in ("CallExpr", "CXXMemberCallExpr"):
             ci, fs = ctx.eff.resolve_callee(x)
-            if ci and fs and p0 is not None and any(canon(a_) == ("var", p0.get("id"), p0.get("name")) for a_ in ci["args"]):
+            if not (ci and fs) or fs[0].body is None or not fs[0].unit.name.endswith("export.cpp"):
+                continue
+            sp = [k for k, p_ in enumerate(fs[0].params) if "basic_string" in qt(p_) or "std::string" in qt(p_) or "string_view" in qt(p_)]
+            if len(sp) == 1 and sp[0] < len(ci["args"]):
                 calls.append((x, fs[0]))
+                names.setdefault(canon(ci["args"][sp[0]]), []).append((x, fs[0]))
+    if len(names) > 1:
+        # the five files of one benchmark go by one name: the .aux file lists <name>.nodes, <name>.nets, ... and the reader opens those
+        major = max(names.values(), key=len)
+        for c_, lst in names.items():
+            if lst is major:
+                continue
+            for x, h in lst:
+                rep.violation("XE", x, f, "%s is given the name %s" % (short(h.qname), pretty(c_)[:30]),
+                              "the other writers are given %s: the .aux file names a file that this export did not write" % pretty([k for k, v_ in names.items() if v_ is major][0])[:30],
+                              key="Circuit::exportIspd|writers given different names")
     writers = {}
     for x, h in calls:
         writers.setdefault(h.key, (h, []))[1].append(x)
@@ -473,9 +488,124 @@ def check_export_complete(ctx, rep):
             rep.holds("XE", xs[0], f, what)
 
 
+def check_export_raw_rows(ctx, rep):
+    """XF (rows). The .scl file describes the rows the user declared: the writer reads Circuit::rows() / rows_. Circuit::computeRows()
+    is a *derived* quantity (the rows minus the fixed obstructions, cut into pieces): written out, a circuit with a macro over its rows
+    reads back with other rows than it had."""
+    prog = ctx.prog
+    n = 0
+    for f in prog.all_funcs(with_lambdas=False):
+        if f.body is None or not f.unit.name.endswith("export.cpp"):
+            continue
+        for x in walk(f.body):
+            if x.get("kind") == "CXXMemberCallExpr":
+                ci = callee_info(x)
+                if ci and ci["qname"] in (CQ + "Circuit::rows", CQ + "Circuit::nbRows"):
+                    n += 1
+                elif ci and ci["qname"] in (CQ + "Circuit::computeRows", CQ + "Circuit::computeRowPlacementArea", CQ + "Circuit::computePlacementArea"):
+                    rep.violation("XF", x, f, "%s writes %s()" % (f.short, ci["name"]), "a derived quantity (rows with the fixed obstructions removed) is "
+                                  "exported in place of the declared rows: the reader rebuilds a circuit with different rows",
+                                  key="%s|derived rows exported" % f.short)
+    if n:
+        rep.holds("XF", "src/export.cpp", None, "the row writer reads the declared rows (%d accesses to rows() / nbRows())" % n)
+
+
+def _strips_directory(node):
+    """The expression removes the directory part of a path: substr(find_last_of / rfind ...), path::filename() / stem(), a *basename* helper."""
+    for y in walk(node):
+        if y.get("kind") in ("CXXMemberCallExpr", "CallExpr"):
+            ci = callee_info(y)
+            if not ci:
+                continue
+            nm = ci["name"] or ""
+            if nm == "substr" and any(callee_info(z) and callee_info(z)["name"] in ("find_last_of", "rfind") for a_ in ci["args"] for z in walk(a_)
+                                      if z.get("kind") in ("CXXMemberCallExpr", "CallExpr")):
+                return True
+            if nm in ("filename", "stem") or "basename" in nm.lower():
+                return True
+    return False
+
+
+def check_aux_names(ctx, rep):
+    """XA. The reader (coloquinte.py, _read_aux) looks for the files listed in the .aux file in the directory of the .aux file:
+    os.path.join(os.path.dirname(aux), name). The writer must therefore list them without the directory the export was directed to:
+    with the path given to exportIspd written as it is, `export_ispd("out/design")` writes out/design.aux naming out/design.nodes, which the
+    reader looks for as out/out/design.nodes."""
+    prog = ctx.prog
+    path = frontend.repo_path("pycoloquinte/coloquinte.py")
+    src = open(path).read()
+    tree = pyast.parse(src)
+    fn = next((n for n in pyast.walk(tree) if isinstance(n, pyast.FunctionDef) and n.name == "_read_aux"), None)
+    joined = False
+    if fn is not None:
+        dirs = set()
+        for n in pyast.walk(fn):
+            if isinstance(n, pyast.Assign) and isinstance(n.value, pyast.Call) and isinstance(n.value.func, pyast.Attribute) and n.value.func.attr == "dirname":
+                dirs |= {t.id for t in n.targets if isinstance(t, pyast.Name)}
+        for n in pyast.walk(fn):
+            if isinstance(n, pyast.Return) and n.value is not None:
+                js = [c for c in pyast.walk(n.value) if isinstance(c, pyast.Call) and isinstance(c.func, pyast.Attribute) and c.func.attr == "join"
+                      and c.args and isinstance(c.args[0], pyast.Name) and c.args[0].id in dirs]
+                if len(js) >= 4:
+                    joined = True
+    if not joined:
+        rep.unknown("XA", "pycoloquinte/coloquinte.py", None, "_read_aux", "the reader no longer joins the listed names with the directory of the .aux file: "
+                    "what the writer has to list is not known")
+        return
+    ws = []
+    for f in prog.all_funcs(with_lambdas=False):
+        if f.body is None or not f.unit.name.endswith("export.cpp"):
+            continue
+        lits = [canon(y) for y in walk(f.body) if y.get("kind") in ("StringLiteral", "DeclRefExpr")]
+        if any(c_[0] == "lit" and ".aux" in str(c_[1]) for c_ in lits) and f.params and \
+                any(y.get("kind") == "VarDecl" and "ofstream" in qt(y) for y in walk(f.body)):
+            ws.append(f)
+    if len(ws) != 1:
+        rep.unknown("XA", "src/export.cpp", None, "writer of the .aux file", "%d candidates (shape changed)" % len(ws))
+        return
+    f = ws[0]
+    pids = {p_.get("id") for p_ in f.params}
+    items = stream_items(f)
+    n = 0
+    for k, (c, node, call) in enumerate(items):
+        nxt = items[k + 1][0] if k + 1 < len(items) else None
+        if not (nxt is not None and nxt[0] == "lit" and any(e in str(nxt[1]) for e in (".nodes", ".nets", ".pl", ".scl"))):
+            continue
+        n += 1
+        what = "%s: name written before %s" % (f.short, str(nxt[1]).strip()[:10])
+        vs = [t for t in subterms(c) if isinstance(t, tuple) and t and t[0] == "var"]
+        if _strips_directory(node):
+            rep.holds("XA", node, f, what, "directory part removed in the streamed expression")
+        elif any(v[1] in pids for v in vs):
+            rep.violation("XA", node, f, what, "is the path given to exportIspd, directory included: the reader joins it with the directory of the .aux "
+                          "file again and looks for the files one directory too deep", key="%s|path written with its directory" % f.short)
+        else:
+            ok = None
+            for v in vs:
+                d = f.unit.by_id.get(v[1])
+                init = children(d)[-1] if d is not None and d.get("kind") == "VarDecl" and children(d) else None
+                if init is None:
+                    continue
+                if _strips_directory(init):
+                    ok = True
+                elif any(isinstance(t, tuple) and t and t[0] == "var" and t[1] in pids for t in subterms(canon(init))) and ok is None:
+                    ok = False
+            if ok is True:
+                rep.holds("XA", node, f, what, "a local from which the directory part has been removed")
+            elif ok is False:
+                rep.violation("XA", node, f, what, "is a copy of the path given to exportIspd, directory included: the reader joins it with the directory of the "
+                              ".aux file again", key="%s|path written with its directory" % f.short)
+            else:
+                rep.unknown("XA", node, f, what, "where the written name comes from was not recognised")
+    if n < 4:
+        rep.unknown("XA", f.decl, f, "names listed in the .aux file", "%d of 4 found (shape changed)" % n)
+
+
 def check_export(ctx, rep):
     prog = ctx.prog
     check_export_complete(ctx, rep)
+    check_aux_names(ctx, rep)
+    check_export_raw_rows(ctx, rep)
     # ---- rows (.scl): keys the reader interprets
     src = open(frontend.repo_path("pycoloquinte/coloquinte.py")).read()
     tree = pyast.parse(src)
@@ -567,6 +697,23 @@ def check_export(ctx, rep):
             l["hi"] = expand_locals(ctx, g, l["hi"])
     netl = [l for l in loops if l["hi"] and l["hi"][0] == "call" and l["hi"][1] == CQ + "Circuit::nbNets"]
     pinl = [l for l in loops if l["hi"] and l["hi"][0] == "call" and l["hi"][1] == CQ + "Circuit::nbPinsNet"]
+    global_pins = False
+    if netl and not pinl:
+        # the pins of net i addressed by their global index: for (pin = netLimits_[i]; pin < netLimits_[i] + nbPinsNet(i); ++pin)
+        nv = netl[0]["var"]
+        first = ("index", ("field", CQ + "Circuit::netLimits_", None), nv)
+        for l in loops:
+            lo = expand_locals(ctx, g, l["lo"]) if l["lo"] else None
+            hi = l["hi"]
+            if lo is None or hi is None or not (lo[0] == "index" and lo[1][0] == "field" and lo[1][1] == CQ + "Circuit::netLimits_" and lo[2] == nv):
+                continue
+            full = (hi[0] == "bin" and hi[1] == "+" and lo in hi[2:4] and any(t[0] == "call" and t[1] == CQ + "Circuit::nbPinsNet" and t[3] == nv for t in hi[2:4])) or \
+                   (hi[0] == "index" and hi[1] == lo[1] and hi[2] == ("bin", "+", nv, ("lit", "1")))
+            if full:
+                l2 = dict(l)
+                l2["lo"] = ("lit", "0")           # judged as a full range below
+                pinl = [l2]
+                global_pins = True
     if not netl or not pinl:
         rep.unknown("XF", g.decl, g, "net / pin loops", "not recognised")
     else:
@@ -591,7 +738,7 @@ def check_export(ctx, rep):
                 continue
             node, v = vals[axis]
             what = "pin %s offset written as %s" % (axis, pretty(v)[:100])
-            ok, why = raw_centre_offset(v, raw, size, net, pin)
+            ok, why = raw_centre_offset(v, raw, size, net, pin, global_pins)
             if ok:
                 rep.holds("XF", node, g, what, "raw offset - 0.5 * raw size (exact inverse of the reader)")
             else:
@@ -639,7 +786,7 @@ def check_export(ctx, rep):
         rep.violation("XF", p.decl, p, ".pl does not write position and orientation name of every cell", "", key="exportIspdPlace|record incomplete")
 
 
-def raw_centre_offset(v, raw, size, net, pin):
+def raw_centre_offset(v, raw, size, net, pin, global_pins=False):
     """v must be  circuit.<raw>[netLimits_[net] + pin] - 0.5 * circuit.<size>[pinCell(net, pin)]  in floating point."""
     if v[0] != "bin" or v[1] != "-":
         return False, "not a difference 'offset - half size'"
@@ -650,6 +797,8 @@ def raw_centre_offset(v, raw, size, net, pin):
         return False, "minuend is not the raw %s" % raw
     idx = a[2]
     okidx = idx[0] == "bin" and idx[1] == "+" and idx[2][0] == "index" and idx[2][1][1] == CQ + "Circuit::netLimits_" and idx[2][2] == net and idx[3] == pin
+    if global_pins:
+        okidx = idx == pin          # the loop variable is the global pin index itself
     if not okidx:
         return False, "raw offset index is %s, expected netLimits_[net] + pin" % pretty(idx)
     half = None
@@ -664,6 +813,8 @@ def raw_centre_offset(v, raw, size, net, pin):
     if not (half[0] == "index" and half[1][0] == "field" and half[1][1] == CQ + "Circuit::" + size):
         return False, "half of %s, expected raw %s" % (pretty(half), size)
     cidx = half[2]
+    if global_pins and cidx[0] == "index" and cidx[1][0] == "field" and cidx[1][1] == CQ + "Circuit::pinCells_" and cidx[2] == pin:
+        return True, ""
     if not (cidx[0] == "call" and cidx[1] == CQ + "Circuit::pinCell" and cidx[3] == net and cidx[4] == pin):
         return False, "size taken from cell %s, expected pinCell(net, pin)" % pretty(cidx)
     return True, ""
